@@ -153,6 +153,35 @@ func facts(repo, out string) {
 			return true
 		})
 	}
+	// the fields of every struct type (the state a transpilation can keep between calls lives here)
+	structFields := []string{}
+	for _, p := range files {
+		rel, _ := filepath.Rel(repo, p)
+		for _, d := range parsed[p].Decls {
+			gd, ok := d.(*ast.GenDecl)
+			if !ok || gd.Tok != token.TYPE {
+				continue
+			}
+			for _, sp := range gd.Specs {
+				ts := sp.(*ast.TypeSpec)
+				st, ok := ts.Type.(*ast.StructType)
+				if !ok {
+					continue
+				}
+				fl := []string{}
+				for _, fd := range st.Fields.List {
+					ty := exprText(fd.Type)
+					if len(fd.Names) == 0 {
+						fl = append(fl, ty)
+					}
+					for _, nm := range fd.Names {
+						fl = append(fl, nm.Name+" "+ty)
+					}
+				}
+				structFields = append(structFields, rel+":"+ts.Name.Name+": "+strings.Join(fl, "; "))
+			}
+		}
+	}
 	var b strings.Builder
 	b.WriteString("-- GENERATED by /verif/tools/extract from the non-test Go source of /repo -- do not edit.\nnamespace Tsh.Facts\n\n")
 	list := func(name string, xs []string) {
@@ -170,6 +199,17 @@ func facts(repo, out string) {
 	list("mapsCalls", mapsCalls)
 	list("pkgVars", pkgVars)
 	list("envCalls", envCalls)
+	list("structFields", structFields)
+	// the structs that hold state during / between transpilations
+	stateStructs := []string{}
+	for _, sf := range structFields {
+		for _, nm := range []string{":transpiler:", ":converter:", ":Parser:", ":context:"} {
+			if strings.Contains(sf, nm) {
+				stateStructs = append(stateStructs, sf)
+			}
+		}
+	}
+	list("stateStructs", stateStructs)
 	list("errorFormats", errFormats)
 	lens := []string{}
 	for _, f := range errFormats {
